@@ -16,7 +16,7 @@ def profiles(tier):
         dict(n=70 if q else 800, maxlen=18, nremotes=2, caps=(16, 64, 4096), vlanes=["val", "val2"], mlanes=["map"], slanes=["sup"],
              usecmd=True, faults=("drop", "dropread", "unknown")),
         dict(n=50 if q else 800, maxlen=26, nremotes=3, caps=(16, 48), vlanes=["val"], mlanes=["map", "omap"], slanes=["sup"],
-             usecmd=True, faults=("unknown",)),
+             usecmd=True, faults=("unknown", "badcmd")),
         dict(n=30 if q else 400, maxlen=16, nremotes=2, caps=(32, 4096), vlanes=["val", "tval"], mlanes=["tmap"], slanes=[],
              usecmd=False, faults=("drop", "unknown", "restart")),
     ]
